@@ -819,6 +819,19 @@ def _h_fit_qual(ctx, cls, kind, sizes, n_nan, params, props):
             for r in s.reset_index().to_dict("records"):
                 for v in r["content"]:
                     ctx.require(r["label"] == obj.labels_per_values["f"][v], "C16.summary-label", f"summary says {v!r} -> {r['label']!r}, transform uses {obj.labels_per_values['f'][v]!r}")
+            # history: the last combination flagged viable is exactly the fitted grouping (in raw values)
+            h = obj._history.get("f", [])
+            viable = [e for e in h if e.get("viability") is True]
+            ctx.require(len(viable) >= 1, "C16.history-viable-count", "kept feature without a viable combination in its history")
+            last = viable[-1]["combination"]
+            fitted = sorted(sorted(map(repr, vo.content[l])) for l in vo)
+            hist = sorted(sorted(map(repr, grp)) for grp in last if len(grp) > 0)
+            if not obj.dropna and vo.contains(NAN):
+                fitted = [g for g in fitted if g != [repr(NAN)]]
+                hist = [g for g in hist if g != [repr(NAN)]]
+            ctx.require(hist == fitted, "C16.history-viable-is-not-fitted", f"last combination flagged viable {last} differs from the fitted grouping {[list(vo.content[l]) for l in vo]}")
+            raw = [e for e in h if e.get("viability") is None and e.get("viability_message") == ["Raw X distribution"]]
+            ctx.require(len(raw) == 1, "C16.history-raw-distribution", f"{len(raw)} raw-distribution entries in the history")
     if "C01" in props:
         def base():
             d = Discretizer(quantitative_features=[], qualitative_features=[] if kind == "ord" else ["f"], min_freq=params["min_freq"], copy=True,
@@ -837,12 +850,15 @@ def obligation_qual(tier, props, name, classes=("BinaryCarver", "ContinuousCarve
     jobs = []
     for cls in classes:
         for kind in ("qual", "ord"):
-            for sizes in ([(3, 3, 2), (2, 2, 2, 2)] if quick else [(3, 3, 2), (2, 2, 2, 2), (4, 1, 3), (2, 3, 2, 3)]):
+            for sizes in ([(3, 3, 2), (2, 2, 2, 2), (4, 3, 1, 1)] if quick else [(3, 3, 2), (2, 2, 2, 2), (4, 3, 1, 1), (4, 1, 3), (2, 3, 2, 3), (3, 1, 3, 1)]):  # incl. levels rarer than min_freq
                 for n_nan in (0, 2):
                     for params in [dict(min_freq=0.2, sort_by="cramerv", max_n_mod=3, output_dtype="str", dropna=True)] + ([dict(min_freq=0.25, sort_by="tschuprowt", max_n_mod=2, output_dtype="float", dropna=False)] if (n_nan or not quick) else []):
                         if n_nan == 0 and params["dropna"] is False:
                             continue
                         jobs.append(dict(cls=cls, kind=kind, sizes=sizes, n_nan=n_nan, params=params, props=sorted(props)))
+            if ("C16" in props or not quick) and kind == "qual":
+                # two rare levels merged into the default group that joins a more frequent, lower-rate level
+                jobs.append(dict(cls=cls, kind=kind, sizes=(3, 1, 1, 3, 3), n_nan=2, params=dict(min_freq=0.2, sort_by="cramerv", max_n_mod=2, output_dtype="str", dropna=True), props=sorted(props)))
     return Obligation(
         name=name, harness=h_fit_qual, jobs=jobs,
         encodes=ENC_CARVER + ["Discretizer.fit", "QualitativeDiscretizer._prepare_data/fit", "CategoricalDiscretizer.fit", "OrdinalDiscretizer.fit", "find_common_modalities", "BaseDiscretizer._transform_qualitative/_check_new_values"],
